@@ -280,7 +280,7 @@ func main() {
 	}
 	nrand := 1500
 	if *tier == "thorough" {
-		nrand = 40000
+		nrand = 12000
 	}
 	for i := 0; i < nrand; i++ {
 		ncalls := r.Range(1, 3)
